@@ -634,3 +634,49 @@ pub fn c05_scratch_request_keeps_agreeing_entries_1() {
 pub fn c05_scratch_request_keeps_agreeing_entries_2() {
     c05_scratch(2)
 }
+
+// thin public wrappers (the methods under test are private to the generated module) for native_diff.rs
+pub fn op_append(log: &Log, es: Vec<Entry>) -> Result<()> {
+    log.append_entries(es)
+}
+pub fn op_foca(log: &Log, prev_i: u64, prev_t: u64, es: Vec<Entry>) -> Result<Option<LogId>> {
+    log.filter_out_conflicts_and_append(prev_i, prev_t, es)
+}
+pub fn op_purge(log: &Log, cutoff: LogId) -> Result<()> {
+    log.purge_logs_up_to(cutoff)
+}
+
+// ---------------------------------------------------------------------------------------------
+// C19: the term-segment cache on its own (no maps involved: cheap), including the "array full" path
+// ---------------------------------------------------------------------------------------------
+/// Six consecutive entries with symbolic non-decreasing terms are appended to a fresh TermSegments
+/// (capacity MAX_TERM_SEGMENTS = 3 in the shadow build, 1024 in the real one: rewrite R3).
+/// `get` may answer None (entry_term then falls back to the entry map) but never a wrong term -- and it must not
+/// panic: before the fix b745c42 it indexed the segment array out of bounds once the array had overflowed.
+#[kani::proof]
+#[kani::unwind(2)]
+pub fn c19_term_segments_many_terms() {
+    let ts = TermSegments::new();
+    let t: [u64; 6] = kani::any();
+    kani::assume(t[0] >= 1 && t[0] <= t[1] && t[1] <= t[2] && t[2] <= t[3] && t[3] <= t[4] && t[4] <= t[5] && t[5] <= 6);
+    let es = [ent(1, t[0]), ent(2, t[1]), ent(3, t[2]), ent(4, t[3]), ent(5, t[4]), ent(6, t[5])];
+    ts.on_append(&es);
+    let mut changes = 0;
+    let mut i = 1;
+    while i < 6 {
+        if t[i] != t[i - 1] {
+            changes += 1;
+        }
+        i += 1;
+    }
+    kani::cover!(changes == 2, "two_term_changes");
+    kani::cover!(changes == 5, "more_term_changes_than_segments");
+    let mut i = 1u64;
+    while i <= 6 {
+        match ts.get(i) {
+            Some(x) => assert!(x == t[(i - 1) as usize], "C19:term_segments_report_a_wrong_term"),
+            None => {}
+        }
+        i += 1;
+    }
+}
